@@ -1,7 +1,60 @@
-(* Properties_C02.v -- placeholder until FsModel lands. *)
-From LCDB Require Import Base LogFormat LogFormatClosed.
+(* Properties_C02.v -- C02: a write acknowledged with sync (or whose log the DB has
+   deleted) survives a power failure at any later instant.  Record-level model:
+   FsModel.v (crash model [crash_image], recovery [recover], protocol rules
+   [wf_protocol] = R0..R7 checked on every lifted real trace by checks/k3check.py);
+   proofs: FsProofs.v.  All theorems cover every accepted trace (flushes, compaction
+   edits, MANIFEST rollover). *)
+From LCDB Require Import Base LogFormat LogFormatClosed FsModel FsProofs.
+Local Open Scope N_scope.
+
 Theorem C02_log_cut_is_record_prefix : forall rs n,
   Forall (fun r => wf_bytes r = true) rs -> (n <= length (write_log rs))%nat ->
   exists k, read_log (firstn n (write_log rs)) = map Rec (firstn k rs).
 Proof. exact read_cut_prefix. Qed.
 Print Assumptions C02_log_cut_is_record_prefix.
+
+Theorem C02_synced_durable : forall tr, wf_protocol tr = true ->
+  forall p img, crash_image (firstn p tr) img -> iget img FCurrent <> None ->
+  exists s, recover img = Some s /\
+    forall id b, acked_sync_before tr p id b \/ acked_and_log_unlinked_before tr p id b ->
+                 applied (firstn p tr) s b.
+Proof. exact FsProofs.C02_synced_durable. Qed.
+Print Assumptions C02_synced_durable.
+
+Theorem C02_database_exists : forall tr, wf_protocol tr = true ->
+  forall p img id b, crash_image (firstn p tr) img -> acked_sync_before tr p id b ->
+  iget img FCurrent <> None.
+Proof. exact FsProofs.C02_database_exists. Qed.
+Print Assumptions C02_database_exists.
+
+Theorem C02_bad_trace_no_table_fsync_refuted :
+  wf_protocol bad_no_table_fsync = false /\ first_violation bad_no_table_fsync = Some (2, 31) /\
+  In (1, true, 3, (1, ex_w1)) (acks bad_no_table_fsync) /\
+  exists img, crash_image bad_no_table_fsync img /\ lost_in img 3 (1, ex_w1) = true.
+Proof. exact bad_trace_no_table_fsync_refuted. Qed.
+Print Assumptions C02_bad_trace_no_table_fsync_refuted.
+
+Theorem C02_bad_trace_unlink_before_manifest_sync_refuted :
+  wf_protocol bad_unlink_before_manifest_sync = false /\
+  first_violation bad_unlink_before_manifest_sync = Some (3, 33) /\
+  In (1, true, 3, (1, ex_w1)) (acks bad_unlink_before_manifest_sync) /\
+  exists img, crash_image bad_unlink_before_manifest_sync img /\ lost_in img 3 (1, ex_w1) = true.
+Proof. exact bad_trace_unlink_before_manifest_sync_refuted. Qed.
+Print Assumptions C02_bad_trace_unlink_before_manifest_sync_refuted.
+
+Theorem C02_bad_trace_rename_before_manifest_sync_refuted :
+  wf_protocol bad_rename_before_manifest_sync = false /\
+  first_violation bad_rename_before_manifest_sync = Some (4, 38) /\
+  In (1, true, 3, (1, ex_w1)) (acks bad_rename_before_manifest_sync) /\
+  exists img, crash_image bad_rename_before_manifest_sync img /\ lost_in img 3 (1, ex_w1) = true.
+Proof. exact bad_trace_rename_before_manifest_sync_refuted. Qed.
+Print Assumptions C02_bad_trace_rename_before_manifest_sync_refuted.
+
+Theorem C02_unlink_before_dirsync_refuted :
+  wf_protocol bad_unlink_before_dirsync = false /\
+  first_violation bad_unlink_before_dirsync = Some (3, 42) /\
+  (In (2, false, 3, (2, ex_w2)) (acks bad_unlink_before_dirsync) /\
+   In (EUnlink (FLog 3)) bad_unlink_before_dirsync) /\
+  exists img, crash_image bad_unlink_before_dirsync img /\ lost_in img 3 (2, ex_w2) = true.
+Proof. exact FsProofs.C02_unlink_before_dirsync_refuted. Qed.
+Print Assumptions C02_unlink_before_dirsync_refuted.
